@@ -5,6 +5,7 @@ import (
 	"go/ast"
 	"go/token"
 	"go/types"
+	"regexp"
 	"sort"
 	"strings"
 
@@ -369,6 +370,7 @@ func r47SchemaCopied(c *core.Ctx) {
 	// position (frozen tables of column -> destination; a destination "via:f" is a local that feeds field f)
 	r47ScanMatchesSelect(c, gi, map[string]string{"table_name": "Name", "column_name": "gcolumn", "geometry_type_name": "via:gtype", "srs_id": "via:srs"}, nil)
 	r47GeometryTypeNames(c)
+	r47ColumnConstraints(c)
 	if f := c.Anchor(R, "gpkg.getSpatialReferenceSystem"); f != nil {
 		r47ScanMatchesSelect(c, f, map[string]string{"srs_name": "Name", "srs_id": "ID", "organization": "Organization", "organization_coordsys_id": "OrganizationCoordsysID", "definition": "Definition", "description": "via:Description"}, nil)
 	}
@@ -782,4 +784,65 @@ func r47GeometryTypeNames(c *core.Ctx) {
 	sort.Strings(missing)
 	c.Check(R, construct, f.Decl.Pos(), len(missing) == 0, fmt.Sprintf("%s: all %d names the library writes map back to their geometry type", form, len(libName)),
 		"the geometry type of a source table is not copied for every type name: "+strings.Join(missing, "; ")+" (such a table is registered as GEOMETRY in the target)")
+}
+
+// r47ColumnConstraints: createSQL copies the NOT NULL and the PRIMARY KEY constraint of a source column
+// independently of each other: the text " NOT NULL" is added exactly under the fact notnull == 1 and " PRIMARY KEY"
+// exactly under pk == 1 (if statements, or any other form that leaves each addition under that one fact).
+func r47ColumnConstraints(c *core.Ctx) {
+	const R = "R47"
+	f := c.Anchor(R, "gpkg.Table.createSQL")
+	if f == nil {
+		return
+	}
+	info := f.Pkg.TypesInfo
+	var loop *ast.RangeStmt
+	ast.Inspect(f.Decl.Body, func(n ast.Node) bool {
+		if r, ok := n.(*ast.RangeStmt); ok && loop == nil {
+			if fv := core.FieldOf(info, r.X); fv != nil && fv.Name() == "columns" {
+				loop = r
+			}
+		}
+		return loop == nil
+	})
+	construct := "column-constraints-copied-independently/" + f.Name
+	if loop == nil {
+		c.Bad(R, construct, f.Decl.Pos(), "no loop over t.columns in createSQL")
+		return
+	}
+	want := map[string]string{"NOT NULL": "notnull", "PRIMARY KEY": "pk"}
+	seen := map[string]bool{}
+	bad := ""
+	ast.Inspect(loop.Body, func(n ast.Node) bool {
+		bl, ok := n.(*ast.BasicLit)
+		if !ok || bl.Kind != token.STRING {
+			return true
+		}
+		txt, ok := core.ConstString(info, bl)
+		if !ok {
+			return true
+		}
+		for kw, field := range want {
+			if strings.TrimSpace(strings.ToUpper(txt)) != kw {
+				continue
+			}
+			seen[kw] = true
+			facts := enclosingFacts(loop.Body, bl)
+			okFact := len(facts) == 1 && facts[0].val && regexp.MustCompile(`^\w+\.`+field+`==1$`).MatchString(facts[0].expr)
+			if !okFact {
+				var fs []string
+				for _, ft := range facts {
+					fs = append(fs, fmt.Sprintf("%s is %v", ft.expr, ft.val))
+				}
+				bad += fmt.Sprintf("%q is added under [%s] instead of exactly %s == 1; ", kw, strings.Join(fs, ", "), field)
+			}
+		}
+		return true
+	})
+	for kw := range want {
+		if !seen[kw] {
+			bad += fmt.Sprintf("%q is never added; ", kw)
+		}
+	}
+	c.Check(R, construct, loop.Pos(), bad == "", "NOT NULL iff notnull == 1 and PRIMARY KEY iff pk == 1, each on its own", "createSQL does not copy the column constraints of the source table: "+bad)
 }
